@@ -137,11 +137,11 @@ theorem afterPE_phase (c : Cfg) (g : St) (ha : g.again = InitPhase) :
         · split
           · split
             · exact Or.inr (Or.inr (Or.inr (ret_phase _ _)))
-            · exact Or.inl (ret_End_halted _)
+            · exact Or.inr (Or.inl rfl)
           · exact Or.inl (ret_Retry_halted _)
         · split
           · exact Or.inr (Or.inr (Or.inr (ret_phase _ _)))
-          · exact Or.inl (ret_End_halted _)
+          · exact Or.inr (Or.inl rfl)
     · have hr : g.upstreamReset = false := by simpa using hr
       by_cases hd : g.direct = true
       · rw [afterPE_direct c g hc hr hd]
